@@ -168,7 +168,24 @@ def tables() -> dict:
                         fs += [[kind, str(p.relative_to(d))] for p in sorted(d.rglob("*")) if p.is_file()]
             sup[g.key] = fs
             commons[g.key] = bool(g.support_lib_commons)
-    return {"support": sup, "commons": commons,
+    # reserved words: every `LanguageKeywords` object visible in a generator's `type.py`; the literal words of the IDL grammar
+    kws, idl_kw = {}, []
+    try:
+        import importlib
+        from pydjinni.generator.validator import LanguageKeywords
+        for mod in ("cpp.cpp", "java.java", "java.jni", "objc.objc", "objc.objcpp", "cppcli.cppcli", "yaml.yaml"):
+            try:
+                m = importlib.import_module(f"pydjinni.generator.{mod}.type")
+            except Exception:
+                continue
+            for v in vars(m).values():
+                if isinstance(v, LanguageKeywords):
+                    kws.setdefault(str(v.language), [str(k) for k in v.keywords])
+        from pydjinni.parser.grammar.IdlLexer import IdlLexer
+        idl_kw = sorted({x.strip("'") for x in IdlLexer.literalNames if x[1:2].isalpha()})
+    except Exception:
+        pass
+    return {"support": sup, "commons": commons, "keywords": kws, "idl_keywords": idl_kw,
             "targets": {tk: [g.key for g in t.generator_instances] for tk, t in api.generation_targets.items()},
             "writes_header": {g.key: bool(g.writes_header) for t in api.generation_targets.values() for g in t.generator_instances}}
 
